@@ -1,7 +1,7 @@
 (* C13: define-then-delete is the identity; feature dependencies stay consistent
    (statements only; proofs in DepsProofs.v / DepsTables.v). *)
 From Coq Require Import ZArith List Bool Arith Lia.
-From CV Require Import Base.Num C13.DepsModel C13.InvModel C13.DepsProofs C13.DepsTables C13.ModuleModel C13.ModuleProofs C13.DepsInv C13.ModuleInv C13.ModuleRooted C13.EnableExcl C13.EnableWitness C13.UserFeatures C13.CrossC08 C13.IdentityProofs Gen.GenDeps.
+From CV Require Import Base.Num C13.DepsModel C13.InvModel C13.DepsProofs C13.DepsTables C13.ModuleModel C13.ModuleProofs C13.DepsInv C13.ModuleInv C13.ModuleRooted C13.EnableExcl C13.EnableWitness C13.UserFeatures C13.CrossC08 C13.IdentityProofs C13.NameModel Gen.GenDeps.
 Import ListNotations.
 Open Scope nat_scope.
 
@@ -578,3 +578,21 @@ Proof.
   do 3 eexists. split; [vm_compute; reflexivity|]. split; [vm_compute; reflexivity|]. split; [vm_compute; reflexivity|].
   split; [vm_compute; reflexivity|]. split; [vm_compute; reflexivity|]. split; [vm_compute; reflexivity|]. split; vm_compute; reflexivity.
 Qed.
+
+(* ==== default names of unnamed biases (NameModel.v) ====
+   The default name of a bias is <type><rank>, rank = a per-type counter that counts every definition of the type, is not
+   decreased by deletions and is cleared by reset.  For EVERY sequence of {define a bias of any type (named or not, its
+   init succeeding or not), delete an unnamed bias, reset} from the empty state: the default names of the live unnamed biases
+   are pairwise distinct (and each rank is at most the counter of its type). *)
+Theorem C13_default_names_stay_distinct : forall (ps : list nop) s, n_inv s -> n_inv (n_run ps s).
+Proof. exact default_names_distinct. Qed.
+Print Assumptions C13_default_names_stay_distinct.
+
+Theorem C13_default_names_initial : n_inv n_empty.
+Proof. exact n_empty_inv. Qed.
+Print Assumptions C13_default_names_initial.
+
+(* the scenario of the seeded change C13_3: two unnamed biases of one type, the older one deleted, a third defined *)
+Example C13_example_default_names :
+  n_live (n_run [NDefine 0 true true; NDefine 0 true true; NDelete 0 1; NDefine 0 true true] n_empty) = [(0, 2); (0, 3)].
+Proof. vm_compute. reflexivity. Qed.
